@@ -139,7 +139,7 @@ def variants(ast, rng, n_layouts, contexts, with_lines=False):
         src, cont = kast.render_with_lines(tree)
         out.append((ctx + "/canon", src, cont) if with_lines else (ctx + "/canon", src))
         for li in range(n_layouts):
-            lay = kast.Layout(random.Random(rng.getrandbits(32)), comments=(li % 2 == 1))
+            lay = kast.Layout(random.Random(rng.getrandbits(32)), comments=(li % 2 == 1), chains=not with_lines)
             src, cont = kast.render_with_lines(tree, lay)
             out.append(("%s/l%d" % (ctx, li), src, cont) if with_lines else ("%s/l%d" % (ctx, li), src))
     return out
